@@ -28,8 +28,12 @@ def gen_pos(j0, ndays):
     from pymeeus.Epoch import Epoch
     from pymeeus.Moon import Moon
     from pymeeus.Sun import Sun
+    ts = []
     for i in range(ndays):
-        t = j0 + float(i)
+        ts.append(j0 + float(i))
+        if i % 9 == 4:
+            ts += [j0 + i + 0.01, j0 + i + 0.02, j0 + i + 0.5]      # an ephemeris in short steps now and then
+    for t in ts:
         e = Epoch(t)
         lon, lat, dist, par = Moon.geocentric_ecliptical_pos(e)
         k = Moon.illuminated_fraction_disk(Epoch(t))
